@@ -10,7 +10,8 @@ ClsOne == {"EllipsePix"}
 ClsCA == {"CircleAnnulusPix"}
 ClsEA == {"EllipseAnnulusPix"}
 ClsPoint == {"PointPix"}
-ClsQuick == ClsAll \ {"EllipseAnnulusPix", "EllipseAnnulusSky", "RectangleAnnulusSky"}
+ClsQuick == ClsAll \ {"EllipseAnnulusPix", "EllipseAnnulusSky", "RectangleAnnulusSky", "RectangleAnnulusPix", "RectangleSky", "LineSky", "PointSky"}
+ClsQuickCopy == ClsAll \ {"EllipseAnnulusPix", "EllipseAnnulusSky", "RectangleAnnulusSky"}
 ClsFew == {"CirclePix", "EllipseSky", "CircleAnnulusPix", "PolygonPix", "CompoundPix"}
 ActsParams == {"construct", "construct_bad", "assign", "delete"}
 ActsMeta == {"construct", "meta", "metaassign"}
